@@ -22,10 +22,9 @@ Check(R, S) ==     \* R: id -> row, S: id -> returned score record
       MaxRk == Max({S[x].rank : x \in Ids} \cup {1})
       AcceptedIn(f) ==
          LET s == SetToSeq(IdsOf(f))  n == Len(s)
-             rk == [i \in 1..n |-> IF T.descs[f] THEN S[s[i]].rank ELSE MaxRk + 1 - S[s[i]].rank]
-             tg == [i \in 1..n |-> R[s[i]].tgt]
-             qm == QMap(rk, tg, n)
-         IN Cardinality({i \in 1..n : tg[i] /\ Leq(qm[rk[i]], <<T.thr[1], T.thr[2]>>)})
+             rk == TLCEval([i \in 1..n |-> IF T.descs[f] THEN S[s[i]].rank ELSE MaxRk + 1 - S[s[i]].rank])
+             tg == TLCEval([i \in 1..n |-> R[s[i]].tgt])
+         IN AcceptedCount(rk, tg, n, <<T.thr[1], T.thr[2]>>)        \* one pass (Tdc.tla: CountEqualsDef)
       Accepted == FoldSet(LAMBDA f, a : a + AcceptedIn(f), 0, Files)
       NM == Len(T.models)
       NF == Len(T.featnames)
@@ -34,10 +33,9 @@ Check(R, S) ==     \* R: id -> row, S: id -> returned score record
       FoldsFitted == {T.fits[i].model : i \in 1..Len(T.fits)}
       FeatCount(k, j, d) ==
          LET s == SetToSeq(Train(k) \cap Ids)  n == Len(s)
-             rk == [i \in 1..n |-> IF d THEN R[s[i]].feats[j] ELSE -R[s[i]].feats[j]]
-             tg == [i \in 1..n |-> R[s[i]].tgt]
-             qm == QMap(rk, tg, n)
-         IN Cardinality({i \in 1..n : tg[i] /\ Leq(qm[rk[i]], <<T.train_thr[1], T.train_thr[2]>>)})
+             rk == TLCEval([i \in 1..n |-> IF d THEN R[s[i]].feats[j] ELSE -R[s[i]].feats[j]])
+             tg == TLCEval([i \in 1..n |-> R[s[i]].tgt])
+         IN AcceptedCount(rk, tg, n, <<T.train_thr[1], T.train_thr[2]>>)
       Cands == IF T.direction = "" THEN 1..NF ELSE {j \in 1..NF : T.featnames[j] = T.direction}
       Counts == [k \in FoldsFitted |-> [j \in Cands |-> [d \in BOOLEAN |-> FeatCount(k, j, d)]]]
       BestCount(k) == Max({Counts[k][j][d] : j \in Cands, d \in BOOLEAN})
@@ -59,8 +57,9 @@ Check(R, S) ==     \* R: id -> row, S: id -> returned score record
       FeatPassReported |-> (T.raised = "" /\ NM >= 1) => Reported,
       info |-> IF T.raised = "" /\ DOMAIN S = Ids /\ NM >= 1
                THEN <<Accepted, FeatTotal, IsBestFeature>> ELSE <<0, 0, FALSE>>]
-RowsF == [x \in {T.rows[i].id : i \in 1..Len(T.rows)} |-> T.rows[CHOOSE i \in 1..Len(T.rows) : T.rows[i].id = x]]
-ScoresF == [x \in {T.scores[i].id : i \in 1..Len(T.scores)} |-> T.scores[CHOOSE i \in 1..Len(T.scores) : T.scores[i].id = x]]
+\* explicit (TLCEval): a lazy function would repeat the CHOOSE at every application
+RowsF == TLCEval([x \in {T.rows[i].id : i \in 1..Len(T.rows)} |-> T.rows[CHOOSE i \in 1..Len(T.rows) : T.rows[i].id = x]])
+ScoresF == TLCEval([x \in {T.scores[i].id : i \in 1..Len(T.scores)} |-> T.scores[CHOOSE i \in 1..Len(T.scores) : T.scores[i].id = x]])
 Init == tid \in 1..Len(Traces)
 Spec == Init /\ [][UNCHANGED tid]_tid
 Verdict == LET C == Check(RowsF, ScoresF)  F == {c \in {"Returned", "SafetyNet", "FeatPassReported"} : ~C[c]} IN
